@@ -29,11 +29,35 @@ int sim_atomic_load(const void* addr, int size, int order, unsigned long long* o
 #define __atomic_fetch_or(p, v, o)       (sim_atomic_event((p), (int)sizeof(*(p)), 2), __atomic_fetch_or((p), (v), (o)))
 #define __atomic_fetch_xor(p, v, o)      (sim_atomic_event((p), (int)sizeof(*(p)), 2), __atomic_fetch_xor((p), (v), (o)))
 #define __atomic_fetch_nand(p, v, o)     (sim_atomic_event((p), (int)sizeof(*(p)), 2), __atomic_fetch_nand((p), (v), (o)))
+#define __atomic_and_fetch(p, v, o)      (sim_atomic_event((p), (int)sizeof(*(p)), 2), __atomic_and_fetch((p), (v), (o)))
+#define __atomic_or_fetch(p, v, o)       (sim_atomic_event((p), (int)sizeof(*(p)), 2), __atomic_or_fetch((p), (v), (o)))
+#define __atomic_xor_fetch(p, v, o)      (sim_atomic_event((p), (int)sizeof(*(p)), 2), __atomic_xor_fetch((p), (v), (o)))
+#define __atomic_nand_fetch(p, v, o)     (sim_atomic_event((p), (int)sizeof(*(p)), 2), __atomic_nand_fetch((p), (v), (o)))
+#define __atomic_exchange(p, v, r, o)    (sim_atomic_event((p), (int)sizeof(*(p)), 2), __atomic_exchange((p), (v), (r), (o)))
+#define __atomic_compare_exchange(p, e, d, w, s, f) \
+    (sim_atomic_event((p), (int)sizeof(*(p)), 2), __atomic_compare_exchange((p), (e), (d), (w), (s), (f)))
+#define __atomic_test_and_set(p, o)      (sim_atomic_event((p), 1, 2), __atomic_test_and_set((p), (o)))
+#define __atomic_clear(p, o)             (sim_atomic_event((p), 1, 2), __atomic_clear((p), (o)))
+/* generic (pointer result) load/store: treated as full-strength accesses with a scheduling point */
+#define __atomic_load(p, r, o)           (sim_atomic_event((p), (int)sizeof(*(p)), 2), __atomic_load((p), (r), (o)))
+#define __atomic_store(p, v, o)          (sim_atomic_event((p), (int)sizeof(*(p)), 2), __atomic_store((p), (v), (o)))
 #define __atomic_add_fetch(p, v, o)      (sim_atomic_event((p), (int)sizeof(*(p)), 2), __atomic_add_fetch((p), (v), (o)))
 #define __atomic_sub_fetch(p, v, o)      (sim_atomic_event((p), (int)sizeof(*(p)), 2), __atomic_sub_fetch((p), (v), (o)))
 #define __atomic_compare_exchange_n(p, e, d, w, s, f) \
     (sim_atomic_event((p), (int)sizeof(*(p)), 2), __atomic_compare_exchange_n((p), (e), (d), (w), (s), (f)))
 #define __atomic_thread_fence(o)         (sim_atomic_event((void*)0, 0, 3), __atomic_thread_fence(o))
+#define __sync_fetch_and_sub(p, v)       (sim_atomic_event((p), (int)sizeof(*(p)), 2), __sync_fetch_and_sub((p), (v)))
+#define __sync_fetch_and_or(p, v)        (sim_atomic_event((p), (int)sizeof(*(p)), 2), __sync_fetch_and_or((p), (v)))
+#define __sync_fetch_and_and(p, v)       (sim_atomic_event((p), (int)sizeof(*(p)), 2), __sync_fetch_and_and((p), (v)))
+#define __sync_fetch_and_xor(p, v)       (sim_atomic_event((p), (int)sizeof(*(p)), 2), __sync_fetch_and_xor((p), (v)))
+#define __sync_fetch_and_nand(p, v)      (sim_atomic_event((p), (int)sizeof(*(p)), 2), __sync_fetch_and_nand((p), (v)))
+#define __sync_add_and_fetch(p, v)       (sim_atomic_event((p), (int)sizeof(*(p)), 2), __sync_add_and_fetch((p), (v)))
+#define __sync_sub_and_fetch(p, v)       (sim_atomic_event((p), (int)sizeof(*(p)), 2), __sync_sub_and_fetch((p), (v)))
+#define __sync_or_and_fetch(p, v)        (sim_atomic_event((p), (int)sizeof(*(p)), 2), __sync_or_and_fetch((p), (v)))
+#define __sync_and_and_fetch(p, v)       (sim_atomic_event((p), (int)sizeof(*(p)), 2), __sync_and_and_fetch((p), (v)))
+#define __sync_xor_and_fetch(p, v)       (sim_atomic_event((p), (int)sizeof(*(p)), 2), __sync_xor_and_fetch((p), (v)))
+#define __sync_lock_test_and_set(p, v)   (sim_atomic_event((p), (int)sizeof(*(p)), 2), __sync_lock_test_and_set((p), (v)))
+#define __sync_lock_release(p)           (sim_atomic_event((p), (int)sizeof(*(p)), 2), __sync_lock_release((p)))
 #define __sync_fetch_and_add(p, v)       (sim_atomic_event((p), (int)sizeof(*(p)), 2), __sync_fetch_and_add((p), (v)))
 #define __sync_val_compare_and_swap(p, e, d) (sim_atomic_event((p), (int)sizeof(*(p)), 2), __sync_val_compare_and_swap((p), (e), (d)))
 #define __sync_bool_compare_and_swap(p, e, d) (sim_atomic_event((p), (int)sizeof(*(p)), 2), __sync_bool_compare_and_swap((p), (e), (d)))
